@@ -457,7 +457,9 @@ func runProperty(id, tier, only string) int {
 			for _, kf := range known {
 				if !kf.fixed && kf.property == id && (kf.harness == "" || kf.harness == r.Func) && (kf.label == "" || strings.Contains(o.Label+" "+o.Pos+" "+ro.nres, kf.label)) {
 					isKnown = true
-					fmt.Printf("KNOWN-FINDING: property=%s %s\n", id, strings.TrimSpace(strings.TrimPrefix(kf.text, "finding:")))
+					txt := strings.TrimSpace(strings.TrimPrefix(kf.text, "finding:"))
+					txt = strings.TrimSpace(strings.TrimPrefix(txt, "property="+id))
+					fmt.Printf("KNOWN-FINDING: property=%s %s\n", id, txt)
 				}
 			}
 			if isKnown {
